@@ -606,6 +606,8 @@ enum Msg {
 
 struct Slot {
     child: Child,
+    /// first run index of the current worker process (its process history starts there)
+    seg_start: u64,
     current: Option<u64>,
     last_activity: Instant,
     done: bool,
@@ -676,11 +678,12 @@ pub fn check_main(cc: &CheckCfg) -> i32 {
     let mut slots: Vec<Slot> = Vec::new();
     for w in 0..cc.workers as usize {
         let child = spawn_worker(cc, w, w as u64, tx.clone());
-        slots.push(Slot { child, current: None, last_activity: Instant::now(), done: false });
+        slots.push(Slot { child, seg_start: w as u64, current: None, last_activity: Instant::now(), done: false });
     }
     let mut completed: u64 = 0;
     let mut died: Vec<(u64, String)> = Vec::new();
     let mut failing: Vec<(u64, V)> = Vec::new();
+    let mut seg_of: BTreeMap<u64, u64> = BTreeMap::new();
     let mut nondet: Vec<u64> = Vec::new();
     let mut rechecked: u64 = 0;
     let mut agg = crate::oracle::Cover::default();
@@ -711,6 +714,7 @@ pub fn check_main(cc: &CheckCfg) -> i32 {
                 digest_all ^= crate::rng::mix(o.digest ^ i);
                 if let Some(v) = o.viol.first() {
                     failing.push((i, v.clone()));
+                    seg_of.insert(i, slots[w].seg_start);
                 }
                 let c = &o.cov;
                 agg.ops += c.ops;
@@ -744,6 +748,7 @@ pub fn check_main(cc: &CheckCfg) -> i32 {
                     if next < cc.runs {
                         let child = spawn_worker(cc, w, next, tx.clone());
                         slots[w].child = child;
+                        slots[w].seg_start = next;
                         slots[w].last_activity = Instant::now();
                         continue;
                     }
@@ -820,6 +825,21 @@ pub fn check_main(cc: &CheckCfg) -> i32 {
         let (msc, mv, evals) = match m {
             Some(m) => (m.scenario, m.viol, m.evals),
             None => {
+                if cc.prop == "C18" {
+                    // C18 is exactly the property that results do not depend on what else the process did: a failure that
+                    // does not reproduce in a fresh process depends on the worker's history. The replay is that history.
+                    violations += 1;
+                    let start = seg_of.get(i).copied().unwrap_or(*i % cc.workers);
+                    let path = replay_dir.join(format!("{}-history-{}.json", cc.prop, seed));
+                    let v = failing.iter().find(|f| f.0 == *i).map(|f| f.1.clone());
+                    let body = json!({"history": {"property": cc.prop, "tier": tier_name(cc.tier), "base": cc.base, "start": start, "stride": cc.workers, "upto": i},
+                        "violation": v, "note": "the run fails only after the earlier runs of the same worker process: results depend on process history"});
+                    std::fs::write(&path, serde_json::to_string_pretty(&body).unwrap()).unwrap();
+                    println!("VIOLATION property={} replay={}", cc.prop, path.display());
+                    println!("  clause=depends-on-process-history detail=run {} fails in its worker process (runs {}, {}+{}, ...) but not alone in a fresh process", i, start, start, cc.workers);
+                    reported.push(json!({"run": i, "seed": seed, "clause": "depends-on-process-history", "replay": path.display().to_string()}));
+                    continue;
+                }
                 // did not reproduce in a fresh process: harness nondeterminism
                 nondet.push(*i);
                 continue;
@@ -836,6 +856,21 @@ pub fn check_main(cc: &CheckCfg) -> i32 {
         println!("VIOLATION property={} replay={}", cc.prop, path.display());
         println!("  clause={} step={} detail={}", mv.clause, mv.step, mv.detail);
         reported.push(json!({"run": i, "seed": seed, "clause": mv.clause, "detail": mv.detail, "replay": path.display().to_string(), "ops_after_minimisation": msc.ops.len()}));
+    }
+    if cc.prop == "C18" {
+        // a scenario that gives different results when evaluated twice in the same worker process
+        let rechecks: Vec<u64> = nondet.drain(..).collect();
+        for i in rechecks {
+            violations += 1;
+            let seed = run_seed(cc.base, &cc.prop, i);
+            let start = i % cc.workers;
+            let path = replay_dir.join(format!("{}-history-{}.json", cc.prop, seed));
+            let body = json!({"history": {"property": cc.prop, "tier": tier_name(cc.tier), "base": cc.base, "start": start, "stride": cc.workers, "upto": i, "recheck": true},
+                "note": "the same scenario evaluated twice in one worker process gave different digests: results depend on process history"});
+            std::fs::write(&path, serde_json::to_string_pretty(&body).unwrap()).unwrap();
+            println!("VIOLATION property={} replay={}", cc.prop, path.display());
+            println!("  clause=same-scenario-twice-differs detail=run {} evaluated twice in its worker process gives different results", i);
+        }
     }
     if unreported > 0 {
         println!("NOTE {} further failing runs were not minimised (report limit reached)", unreported);
@@ -955,6 +990,44 @@ pub fn replay_main(path: &str) -> i32 {
         }
     };
     let v: serde_json::Value = serde_json::from_str(&txt).unwrap_or(json!(null));
+    if let Some(h) = v.get("history") {
+        // replay a worker's whole process history in this process
+        let prop = h["property"].as_str().unwrap_or("C18").to_string();
+        let tier = tier_of(h["tier"].as_str().unwrap_or("quick"));
+        let (base, start, stride, upto) = (h["base"].as_u64().unwrap_or(1), h["start"].as_u64().unwrap_or(0), h["stride"].as_u64().unwrap_or(16).max(1), h["upto"].as_u64().unwrap_or(0));
+        let mut i = start;
+        while i <= upto {
+            let sc = generate(&prop, run_seed(base, &prop, i), tier);
+            let out = evaluate(&sc);
+            if i == upto && h["recheck"].as_bool().unwrap_or(false) {
+                // the same scenario evaluated twice in one process must give the same digests
+                let out2 = evaluate(&generate(&prop, run_seed(base, &prop, i), tier));
+                return if out2.digest != out.digest {
+                    println!("VIOLATION property={} replay={}", prop, path);
+                    println!("  clause=same-scenario-twice-differs detail=run {} evaluated twice in the same process gives different results", i);
+                    1
+                } else {
+                    println!("replay of {}: property {} held", path, prop);
+                    0
+                };
+            }
+            if i == upto {
+                return match out.viol.first() {
+                    Some(vv) => {
+                        println!("VIOLATION property={} replay={}", prop, path);
+                        println!("  clause={} step={} detail={}", vv.clause, vv.step, vv.detail);
+                        1
+                    }
+                    None => {
+                        println!("replay of {}: property {} held", path, prop);
+                        0
+                    }
+                };
+            }
+            i += stride;
+        }
+        return 0;
+    }
     let scv = if v.get("scenario").is_some() { v["scenario"].clone() } else { v.clone() };
     let sc: Scenario = match serde_json::from_value(scv) {
         Ok(s) => s,
